@@ -2,7 +2,10 @@ package verifharness
 
 import (
 	"fmt"
+	"net"
+	"time"
 
+	"github.com/Jigsaw-Code/outline-ss-server/verifrt/simnet"
 	"github.com/Jigsaw-Code/outline-ss-server/verifrt/simrt"
 )
 
@@ -136,6 +139,95 @@ func runC07s(rc *RunCtx) {
 	// every served handshake dials once; refused ones never
 	rc.Nontrivial = true
 	ms.Srv.StopForVerif()
+	simrt.Quiesce()
+	rc.Phase = "done"
+}
+
+// c07r — history-size changes while a service is running: the replay history
+// of a live authenticator (real TCP handshakes through the real handler) is
+// resized up and down between presentations, starting from 0 in a third of the
+// runs. A handshake presented again while fewer than N other handshakes were
+// checked since (N = the smallest history size in force in between) is refused.
+func init() {
+	Register(&Scenario{Name: "c07r", Prop: "C07", MaxSteps: 400000, Run: runC07r})
+}
+
+func runC07r(rc *RunCtx) {
+	G := rc.G
+	w := simnet.NewWorld()
+	keys := genKeys(G, 1+G.Draw(3), "")
+	sizes := []int{0, 1, 2, 5, 50}
+	cur := sizes[G.Draw(len(sizes))]
+	if G.Draw(3) == 0 {
+		cur = 0
+	}
+	srv := startTCPServer(rc, w, tcpServerOpts{Keys: keys, Replay: cur, Timeout: 100 * time.Millisecond, UseSvc: G.Draw(2) == 0})
+	tgtIP := net.IPv4(93, 184, 216, 34).To4()
+	startTarget(w, tgtIP, 7000, func(tc *targetConn) {
+		readAll(tc.C)
+		tc.C.Close()
+	})
+	type rec struct {
+		wire   []byte
+		key    *Key
+		at     int // check counter at its last presentation
+		minCap int // smallest history size in force since then
+	}
+	var seen []*rec
+	checks := 0
+	present := func(k *Key, wire []byte) (served bool) {
+		d0 := len(w.Dials)
+		cc, err := srv.connect(net.IPv4(198, 18, 70, byte(1+checks%200)).To4(), 26000+checks)
+		if err != nil {
+			return false
+		}
+		cc.Write(wire)
+		cc.CloseWrite()
+		readAll(cc)
+		cc.Close()
+		return len(w.Dials) > d0
+	}
+	nOps := 3 + G.Draw(10)
+	for op := 0; op < nOps; op++ {
+		switch x := G.Draw(5); {
+		case x == 0:
+			n := sizes[G.Draw(len(sizes))]
+			if err := srv.Replay.Resize(n); err == nil {
+				cur = n
+				for _, r := range seen {
+					if n < r.minCap {
+						r.minCap = n
+					}
+				}
+				rc.D("op %d: resize to %d", op, n)
+				rc.Probe("history_resized_under_running_service")
+			}
+		case x <= 2 || len(seen) == 0:
+			k := keys[G.Draw(len(keys))]
+			enc := newEncoder(k)
+			wire := enc.Chunk(socksAddr(fmt.Sprintf("%s:7000", tgtIP)))
+			served := present(k, wire)
+			checks++
+			if !served && !freshRefusalExcused(rc, k, wire) {
+				rc.Failf("fresh-handshake-refused", "op %d: a never-seen handshake under %s was not served (history %d)", op, k.ID, cur)
+			}
+			seen = append(seen, &rec{wire: wire, key: k, at: checks, minCap: cur})
+		default:
+			r := seen[G.Draw(len(seen))]
+			between := checks - r.at
+			served := present(r.key, r.wire)
+			checks++
+			if r.minCap > 0 && between < r.minCap {
+				rc.Probe("replay_within_window_after_resizes")
+				if served {
+					rc.Failf("replay-served", "op %d: a handshake presented again after %d other handshakes was served again; the history size was never below %d since its last presentation (now %d)", op, between, r.minCap, cur)
+				}
+			}
+			r.at, r.minCap = checks, cur
+		}
+	}
+	rc.Nontrivial = true
+	srv.Stop()
 	simrt.Quiesce()
 	rc.Phase = "done"
 }
